@@ -53,7 +53,7 @@ def point_to_triangle(point, triangle_points):
 
     # Check if point in edge region of AB
     vc = d1 * d4 - d3 * d2
-    if vc <= 0.0 <= d1 and d3 <= 0.0:
+    if vc <= 0.0 <= d1 and d3 <= 0.0 and d1 - d3 > 0.0:
         v = d1 / (d1 - d3)
         closest_point = triangle_points[0] + v * ab
         return np.linalg.norm(point - closest_point), closest_point
@@ -68,14 +68,14 @@ def point_to_triangle(point, triangle_points):
 
     # Check if point in edge region of AC
     vb = d5 * d2 - d1 * d6
-    if vb <= 0.0 <= d2 and d6 <= 0.0:
+    if vb <= 0.0 <= d2 and d6 <= 0.0 and d2 - d6 > 0.0:
         w = d2 / (d2 - d6)
         closest_point = triangle_points[0] + w * ac
         return np.linalg.norm(point - closest_point), closest_point
 
     # Check if point in edge region of BC
     va = d3 * d6 - d5 * d4
-    if va <= 0.0 <= d4 - d3 and d5 - d6 >= 0.0:
+    if va <= 0.0 <= d4 - d3 and d5 - d6 >= 0.0 and (d4 - d3) + (d5 - d6) > 0.0:
         w = (d4 - d3) / ((d4 - d3) + (d5 - d6))
         closest_point = triangle_points[1] + w * (triangle_points[2] - triangle_points[1])
         return np.linalg.norm(point - closest_point), closest_point
